@@ -148,6 +148,22 @@ def run_l(planner):
     return _run
 
 
+def run_c18(prop, tier, seed, report, scratch):
+    """Histories under the link-encrypting codec (family L) + every entry shape written directly (Codec.tla's C18Shapes)."""
+    run_l(plans_c18)(prop, tier, seed, report, scratch)
+    cov = dict(report.coverage)
+    fam_d.run_family_d(prop, tier, seed, report, scratch)
+    # keep the model-checking counts of the history part, add the shape part next to them
+    shape_part = {k: report.coverage.get(k) for k in ("evaluations", "distinct_nontrivial", "obligations_exported_by_tlc")}
+    for k in ("states", "transitions", "traces_validated_against_impl", "plans", "exhaustive", "model_operators"):
+        if k in cov:
+            report.coverage[k] = cov[k]
+    report.coverage["layerP_operators"] = cov.get("layerP_operators", []) + fam_d.P_OPS["C18"]
+    report.coverage["layerM_operators"] = cov.get("layerM_operators", [])
+    report.coverage["samples"] = cov.get("samples", []) + report.coverage.get("samples", [])
+    report.coverage["direct_entry_shapes"] = shape_part
+
+
 CHECKS = {
     "C01": dict(level="model_checking", run=run_l(plans_core)),
     "C02": dict(level="model_checking", run=run_l(plans_core)),
@@ -165,7 +181,7 @@ CHECKS = {
     "C14": dict(level="model_checking", run=fam_k.run_family_k),
     "C15": dict(level="model_checking", run=run_l(plans_c15)),
     "C17": dict(level="fault_enumeration", run=run_l(plans_c17)),
-    "C18": dict(level="model_checking", run=run_l(plans_c18)),
+    "C18": dict(level="model_checking", run=run_c18),
     "C19": dict(level="model_checking", run=fam_misc.run_c19),
     "C20": dict(level="model_checking", run=fam_misc.run_c20),
     "C16": dict(level="model_checking", run=run_l(plans_c16)),
